@@ -300,6 +300,9 @@ impl TrackShared {
 			2 => TrackPlaybackState::Paused,
 			3 => TrackPlaybackState::WaitingToResume,
 			4 => TrackPlaybackState::Resuming,
+			// the state manager ends up stopped when the clock a resume was scheduled
+			// on no longer exists; the track is then silent and not advancing
+			5 | 6 => TrackPlaybackState::Paused,
 			_ => panic!("Invalid playback state"),
 		}
 	}
